@@ -33,7 +33,7 @@ RULE = (
     "to the warm-cache initial state; distinct = distinct (state key, operation)."
 )
 ASSUMPTIONS = [
-    "alphabet of 116 concrete operations (105 mutator calls + 11 queries) over a fixed name universe (DESIGN.md C03)",
+    "alphabet of 117 concrete operations (105 mutator calls + 12 queries, one of them a simulation whose result views are read) over a fixed name universe (DESIGN.md C03)",
     "states reached by a failing transition are not expanded",
 ]
 
@@ -126,7 +126,7 @@ def _ops():
     ops = [("Q", {})]
     # every other query is an operation too: a read must not change any later answer
     for q in ("Q_stoichiometries", "Q_stoichiometries_state", "Q_right_hand_side", "Q_fluxes", "Q_call", "Q_initial_conditions",
-              "Q_parameter_values", "Q_derived_names", "Q_args_time_course", "Q_stoichiometries_of_variable"):
+              "Q_parameter_values", "Q_derived_names", "Q_args_time_course", "Q_stoichiometries_of_variable", "Q_simulate_and_read"):
         ops.append((q, {}))
     # adds: fresh name, same kind in use, other kind in use, surrogate output, time
     for nm in ("n1", "k", "x", "sa", "time", "dp"):
@@ -262,6 +262,13 @@ def apply_op(m, op):
             elif name == "Q_stoichiometries_of_variable":
                 for v in vn:
                     m.get_stoichiometries_of_variable(v, st, 1.0)
+            elif name == "Q_simulate_and_read":
+                # using the model: a short simulation whose result views are read (they evaluate the model)
+                from mxlpy import Simulator
+
+                res = Simulator(m).simulate(0.25, steps=2).get_result().unwrap_or_err()
+                res.variables  # noqa: B018
+                res.fluxes  # noqa: B018
         except Exception:  # noqa: BLE001 - a query that fails is still a query
             pass
         return
